@@ -12,14 +12,6 @@
 namespace etl::chrono {
 
 namespace detail {
-template <typename T>
-struct is_duration : etl::false_type { };
-
-template <typename Rep, typename Period>
-struct is_duration<etl::chrono::duration<Rep, Period>> : etl::true_type { };
-
-template <typename T>
-inline constexpr auto is_duration_v = is_duration<T>::value;
 
 template <typename ToDuration, typename CF, typename CR, bool NumIsOne = false, bool DenIsOne = false>
 struct duration_cast_impl {
